@@ -60,10 +60,16 @@ func SetParseErrorLanguage(lang int) {
 	parseErrorLanguage = lang
 }
 
-// formatFriendlyError 生成友好的错误消息
+// formatFriendlyError 生成友好的错误消息(使用全局语言设置)
 func formatFriendlyError(pos position, input []byte, expected []string) error {
+	return formatFriendlyErrorLang(parseErrorLanguage, pos, input, expected)
+}
+
+// formatFriendlyErrorLang 以指定语言生成友好的错误消息。
+// Context.Parse 使用各自 Config.ParseErrorLanguage，不经过全局变量: 否则并发的多个VM会互相改写对方的语言
+func formatFriendlyErrorLang(lang int, pos position, input []byte, expected []string) error {
 	if len(input) == 0 {
-		return fmtErr(pos, input, errMsgs["empty"], 0)
+		return fmtErr(lang, pos, input, errMsgs["empty"], 0)
 	}
 
 	var char rune
@@ -115,15 +121,15 @@ func formatFriendlyError(pos position, input []byte, expected []string) error {
 		msg = errMsgs["syntax"]
 	}
 
-	return fmtErr(pos, input, msg, fmtChar)
+	return fmtErr(lang, pos, input, msg, fmtChar)
 }
 
 // fmtErr 格式化错误输出
-func fmtErr(pos position, input []byte, msg bilingualMsg, char rune) error {
+func fmtErr(lang int, pos position, input []byte, msg bilingualMsg, char rune) error {
 	var sb strings.Builder
 
 	// 标题
-	switch parseErrorLanguage {
+	switch lang {
 	case ParseErrorLanguageChinese:
 		sb.WriteString("语法错误\n")
 	case ParseErrorLanguageEnglish:
@@ -156,7 +162,7 @@ func fmtErr(pos position, input []byte, msg bilingualMsg, char rune) error {
 	}
 
 	// 位置和消息
-	switch parseErrorLanguage {
+	switch lang {
 	case ParseErrorLanguageChinese:
 		sb.WriteString(fmt.Sprintf("  位置 %d:%d - %s", pos.line, pos.col, cn))
 	case ParseErrorLanguageEnglish:
